@@ -12,6 +12,10 @@ S3  generated Modelica models (parameter-dependent attributes, array parameters 
     (b) CORRESPONDENCE = what the real save_model stored (dependency matrices, delay dependency lists)
         and what the real load_model reconstructed (attribute kinds and values, delay durations) vs the
         Coq model evaluated by vm_compute on the attribute expressions of the real saved model.
+    Also: affine-only models with attributes that are PRODUCTS of distinct parameters (the affine rebuild of
+    variable_metadata_function must not be taken), and request SEQUENCES on the same folder with option
+    sets A then B (B adds/drops a key outside the default option dict, e.g. iterative_simplification): every
+    call must equal a fresh compile with that call's options.
     Thorough tier also runs a few models with {"codegen": True} (compiled shared libraries)."""
 import json
 import os
@@ -240,7 +244,127 @@ def gen_model(rng, opts):
     return text, feats
 
 
+def gen_affine_product(rng):
+    """A model whose attributes use only operations that variable_metadata_function accepts as affine
+    (+, -, unary -, c*p with c != 2, p/c), so that the A*p+b rebuild is in play, plus one or two attributes
+    that are PRODUCTS of 2-3 distinct parameters (affine in each parameter separately, not jointly)."""
+    np_ = rng.randint(2, 4)
+    ps = ["p%d" % i for i in range(1, np_ + 1)]
+    decl = ["parameter Real %s%s;" % (p, " = %s" % lit(rng) if rng.random() < 0.6 else "") for p in ps]
+
+    def aff():
+        a, b = rng.sample(ps, 2)
+        return rng.choice([lit(rng), "%s + %s" % (a, b), "-%s" % a, "%s + %s" % (a, lit(rng)), "%s - %s" % (a, b),
+                           "3*%s" % a, "0.5*%s + %s" % (a, b), "%s/4" % a, a])
+
+    def prod():
+        k = rng.choice([2, 2, 3]) if np_ >= 3 else 2
+        t = "*".join(rng.sample(ps, k))
+        return rng.choice([t, t, "%s + %s" % (t, rng.choice(ps)), "%s*%s" % (rng.choice(["3", "0.5"]), t)])
+
+    nprod = rng.choice([0, 1, 1, 1, 2])
+    names = ["x1", "y1", "y2"][:rng.randint(2, 3)]
+    slots = [(v, a) for v in names for a in ("min", "max", "start", "nominal")]
+    rng.shuffle(slots)
+    chosen = slots[:rng.randint(2, 6)]
+    attrs = {}
+    for k, (v, a) in enumerate(chosen):
+        attrs.setdefault(v, []).append("%s = %s" % (a, prod() if k < nprod else aff()))
+    eqs = ["der(x1) = -%s*x1 + %s;" % (ps[0], ps[1])]
+    for v in names[1:]:
+        eqs.append("%s = %s*x1 + %s;" % (v, rng.choice(["3", "0.5"]), rng.choice(ps)))
+    for v in names:
+        decl.append("Real %s%s;" % (v, "(%s)" % ", ".join(attrs[v]) if v in attrs else ""))
+    text = "model M\n  " + "\n  ".join(decl) + "\nequation\n  " + "\n  ".join(eqs) + "\nend M;\n"
+    return text, ["affine-only"] + (["parameter-product-attribute"] if nprod else [])
+
+
+SEQ_BASE = {"eliminate_constant_assignments": True, "factor_and_simplify_equations": True,
+            "replace_constant_expressions": True, "replace_constant_values": True, "detect_aliases": True}
+# options that Model.simplify reads with options.get() and that are NOT in the default option dictionary
+EXTRA_KEYS = ["iterative_simplification"]
+
+
+def gen_chain(rng):
+    """equations that need a second simplification pass: a constant assignment that turns another equation
+    into an alias / constant only after the first pass"""
+    n = rng.randint(1, 3)
+    decl = ["Real x(start = 0);", "Real z;", "Real f;", "Real g;"] + ["Real h%d;" % i for i in range(1, n + 1)]
+    eqs = ["der(x) = %s + z;" % rng.choice(["10", "2.5", "x"]), "f = 0;", "g = %s;" % rng.choice(["1", "2.5", "4"]),
+           "f = (z - h1);"]
+    for i in range(1, n):
+        eqs.append("h%d = h%d;" % (i, i + 1))
+    eqs.append("h%d = g;" % n)
+    if rng.random() < 0.5:
+        decl.append("Real w;")
+        eqs.append("w = %sz;" % rng.choice(["", "-"]))
+    rng.shuffle(eqs)
+    return "model M\n  " + "\n  ".join(decl) + "\nequation\n  " + "\n  ".join(eqs) + "\nend M;\n"
+
+
+def gen_sequence(rng):
+    text = gen_chain(rng)
+    base = dict(SEQ_BASE)
+    if rng.random() < 0.4:
+        base.pop(rng.choice(sorted(base)))
+    kind = rng.choice(["add-extra", "add-extra", "add-extra", "drop-extra", "add-default", "same", "extra-false-true"])
+    k = rng.choice(EXTRA_KEYS)
+    if kind == "add-extra":
+        steps = [base, dict(base, **{k: True})]
+    elif kind == "drop-extra":
+        steps = [dict(base, **{k: True}), base]
+    elif kind == "add-default":
+        steps = [base, dict(base, expand_vectors=True), dict(base, expand_vectors=True, **{k: True})]
+    elif kind == "extra-false-true":
+        steps = [dict(base, **{k: False}), dict(base, **{k: True})]
+    else:
+        steps = [dict(base, **{k: True}), dict(base, **{k: True})]
+    return {"name": "M", "text": text, "steps": steps, "mode": "cache", "origin": "generated-sequence",
+            "features": ["sequence:" + kind]}
+
+
+DIRECTED_SEQ = [
+    ("option-outside-defaults-added", [SEQ_BASE, dict(SEQ_BASE, iterative_simplification=True)], """model M
+  Real x(start = 0);
+  Real z;
+  Real f;
+  Real g;
+  Real h;
+equation
+  der(x) = 10 + z;
+  f = 0;
+  g = 1;
+  f = (z - h);
+  h = g;
+end M;
+"""),
+]
+
+
 DIRECTED = [
+    ("bilinear-attribute-in-affine-model", {}, """model M
+  parameter Real area;
+  parameter Real height = 2.0;
+  parameter Real k = 3.0;
+  Real v(min = 0.0, max = area*height, nominal = k);
+  Real h(min = 0.0, max = height + 0.5);
+  input Real q(fixed = true);
+equation
+  der(v) = q - k*h;
+  v = area*h;
+end M;
+"""),
+    ("trilinear-attribute-in-affine-model", {}, """model M
+  parameter Real p1 = 1.5;
+  parameter Real p2;
+  parameter Real p3 = 0.5;
+  Real x(min = -p1, max = p1*p2*p3 + p2, start = p2 - p3);
+  Real y(nominal = p1 + 0.5);
+equation
+  der(x) = -p1*x + p2;
+  y = 3*x + p3;
+end M;
+"""),
     # one per mechanism / mutant
     ("scalar-dependent-attributes", {}, """model M
   parameter Real p1 = 2.0;
@@ -399,10 +523,39 @@ def degenerate(res):
     return [k for k, v in res.get("fresh", {}).get("functions", {}).items() if "exc" in v]
 
 
+def judge_sequence(case, res):
+    for k, (opts, rec) in enumerate(zip(case["steps"], res["steps"])):
+        where = "request %d (options %s)" % (k + 1, json.dumps(opts, sort_keys=True))
+        if "fresh_exc" in rec:
+            for key in ("a", "b"):
+                if rec.get(key + "_exc") != rec["fresh_exc"]:
+                    return ("exception-differs", "%s: fresh compile raises %s, the %s call %s"
+                            % (where, rec["fresh_exc"], res["mode"], rec.get(key + "_exc") or "succeeds"))
+            continue
+        if [f for f, v in rec["fresh"]["functions"].items() if "exc" in v]:
+            continue
+        for key in ("a", "b"):
+            if key + "_exc" in rec:
+                return ("raises", "%s: call %s raised %s (%s); the uncached compile succeeds"
+                        % (where, key, rec[key + "_exc"], rec.get(key + "_msg")))
+            d = diff(rec["fresh"], rec[key])
+            if d:
+                stale = rec[key + "_compiles"] == 0
+                return ("stale-cache-served" if stale and key == "a" else "differs-from-fresh",
+                        "%s: the model returned by call %s (%s) differs from a fresh compile with these options: %s"
+                        % (where, key, "served from the cache file of an earlier request" if stale and key == "a"
+                           else "compiles: %d" % rec[key + "_compiles"], d))
+        if rec["b_compiles"] != 0 or rec["b"]["type"] != "CachedModel":
+            return ("cache-not-used", "%s: the repeated call did not serve the cache" % where)
+    return None
+
+
 def judge(case, res):
     """None | (tag, why)"""
     if "harness" in res:
         return ("harness", res["harness"])
+    if "steps" in res:
+        return judge_sequence(case, res)
     if "crash" in res:
         return ("crash", "child died with rc=%s on this model: %s" % (res["crash"], res.get("stderr", "")[-200:]))
     if "exc" in res:
@@ -572,15 +725,27 @@ def run_parallel(ctx, cases, workers=4, timeout=1500):
 def build_cases(ctx):
     cases = [{"name": "M", "text": t, "opts": o, "mode": "cache", "origin": "directed:" + n} for n, o, t in DIRECTED]
     cases += corpus_cases()
-    n_gen = ctx.scaled(36, 1000)
+    for n, steps, t in DIRECTED_SEQ:
+        cases.append({"name": "M", "text": t, "steps": steps, "mode": "cache", "origin": "directed-sequence:" + n})
+    for i in range(ctx.scaled(7, 150)):
+        text, feats = gen_affine_product(ctx.rng)
+        cases.append({"name": "M", "text": text, "opts": ctx.rng.choice([{}, {}, {"expand_vectors": True},
+                                                                          {"replace_constant_values": True}]),
+                      "mode": "cache", "origin": "generated-affine", "features": feats})
+    for i in range(ctx.scaled(5, 100)):
+        cases.append(gen_sequence(ctx.rng))
+    n_gen = ctx.scaled(30, 1000)
     for i in range(n_gen):
         opts = dict(OPTION_SETS[i % len(OPTION_SETS)] if ctx.rng.random() < 0.8 else ctx.rng.choice(OPTION_SETS))
         text, feats = gen_model(ctx.rng, opts)
         cases.append({"name": "M", "text": text, "opts": opts, "mode": "cache", "origin": "generated", "features": feats})
     n_cg = ctx.scaled(0, 4)
     for i in range(n_cg):
-        n, o, t = DIRECTED[[2, 5, 4, 0][i % 4]]
+        n, o, t = DIRECTED[[4, 7, 0, 2][i % 4]]
         cases.append({"name": "M", "text": t, "opts": o, "mode": "codegen", "origin": "directed-codegen:" + n})
+    if n_cg:
+        n, steps, t = DIRECTED_SEQ[0]
+        cases.append({"name": "M", "text": t, "steps": steps, "mode": "codegen", "origin": "directed-sequence-codegen:" + n})
     return cases
 
 
@@ -608,7 +773,17 @@ def run(ctx):
             if tag == "harness":
                 ctx.oblige("harness:child", False, why)
                 continue
-            core.report(ctx, tag, why, {"input": {k: c[k] for k in ("name", "text", "opts", "mode")}, "why": why})
+            core.report(ctx, tag, why, {"input": {k: c[k] for k in ("name", "text", "opts", "steps", "mode") if k in c},
+                                        "why": why})
+        if "steps" in r:
+            stats["sequences"] = stats.get("sequences", 0) + 1
+            fr = [json.dumps(x.get("fresh"), sort_keys=True) for x in r["steps"]]
+            if len(set(fr)) > 1:
+                stats["sequences_where_options_change_the_model"] = stats.get("sequences_where_options_change_the_model", 0) + 1
+                nontrivial.add(json.dumps([c["text"], c["steps"], c["mode"]], sort_keys=True))
+            stats["sequence_calls_served_from_cache"] = stats.get("sequence_calls_served_from_cache", 0) + sum(
+                1 for x in r["steps"] for key in ("a", "b") if x.get(key + "_compiles") == 0 and key in x)
+            continue
         if "fresh_exc" in r:
             stats["fresh_raises"] += 1
         elif "first_exc" in r and degenerate(r):
@@ -644,17 +819,22 @@ def run(ctx):
         i = mism[0]
         core.violation(ctx, "correspondence-broken",
                        {"correspondence": "Model/C19_cache.v check_case vs save_model/load_model",
-                        "input": {k: cases[i][k] for k in ("name", "text", "opts", "mode")},
+                        "input": {k: cases[i][k] for k in ("name", "text", "opts", "mode") if k in cases[i]},
                         "stored": results[i].get("db"), "attr_ast": results[i].get("attr_ast")}, no_input=True)
     core.replay_known(ctx, lambda e: None)
     ctx.cov["evaluations"] = len(cases)
     ctx.cov["distinct_nontrivial"] = len(nontrivial)
     ctx.cov["rule"] = ("%d directed models (one per mechanism/mutant) + %d corpus models from test/models + generated models "
-                       "under %d option sets; each case = fresh compile, compile+save, load; non-trivial = served from the "
-                       "cache and the saved model has at least one MX attribute or a delay, distinct by (text, options, mode)"
-                       % (len(DIRECTED), len(corpus_cases()), len(OPTION_SETS)))
+                       "under %d option sets + affine-only models with attributes that are products of 2-3 distinct "
+                       "parameters; each case = fresh compile, compile+save, load; + request SEQUENCES on one folder (option "
+                       "sets A then B, incl. keys outside the default option dict such as iterative_simplification; every "
+                       "call must equal a fresh compile with ITS options); non-trivial = served from the cache and the "
+                       "saved model has at least one MX attribute or a delay, or a sequence whose option sets give "
+                       "different models; distinct by (text, options, mode)"
+                       % (len(DIRECTED) + len(DIRECTED_SEQ), len(corpus_cases()), len(OPTION_SETS)))
     gen = [c for c in cases if c["origin"] == "generated"]
-    ctx.cov["samples"] = [{"opts": c["opts"], "text": c["text"]} for c in gen[:2]]
+    ctx.cov["samples"] = [{"opts": c["opts"], "text": c["text"]} for c in gen[:2]] + \
+        [{"steps": c["steps"], "text": c["text"]} for c in cases if c["origin"] == "generated-sequence"][:1]
     ctx.notes["input_distribution"] = {"cases": len(cases), "generator_features": feats, "observed": stats,
                                        "correspondence_cases": len(enc), "correspondence_skipped": skipped}
     ctx.assumptions += [
